@@ -71,6 +71,9 @@ def cases_for(ctx):
     cases.append({'behaviours': [E, 'hang', E, D], 'recycle': 3, 'consume': ['close', 3], 'companion': True})
     # a timeout that is not a small number of seconds: "within roughly that timeout" does not depend on how long the timeout is
     cases.append({'behaviours': [E, 'hang', E], 'recycle': 3, 'timeout': 16.0, 'consume': 'full'})
+    # the comparison is built in one process and consumed in a process forked from it (one forked consumer per category)
+    cases.append({'behaviours': [E, D, E, E, E], 'recycle': 2, 'consume': 'full', 'consume_in_fork': True})
+    cases.append({'behaviours': [E, D, E, E], 'recycle': 3, 'consume': ['close', 2], 'consume_in_fork': True})
     # a timeout of zero: every replay that does not answer at once is given up at once (not "no timeout")
     cases.append({'behaviours': ['hang', 'hang'], 'recycle': 3, 'timeout': 0, 'consume': 'full'})
     # the ids come from a generator of the caller whose clean-up fails / that swallows GeneratorExit; the run is abandoned
